@@ -66,9 +66,9 @@ class AWorld:
         self.facts = facts
         self.parts = []
         self.depth = 0
-        self.eError = facts.enumconst.get(NS + 'StylesheetConstructionContext::eError')
+        self.eError = facts.enumconst.get(NS + 'ProblemListenerBase::eError')
         if self.eError is None:
-            self.eError = facts.enumconst.get(NS + 'XPathConstructionContext::eError')
+            raise AnalysisBroken('ProblemListenerBase::eError not found')
 
     def glob(self, name):
         n = name.split('::')[-1]
@@ -163,7 +163,7 @@ class AWorld:
                 return 'PART'
             if n == 'problem':
                 a = [m.ev(x) for x in c['args'][:2]]
-                if a[1] == self.eError or self.eError is None:
+                if a[1] == self.eError:
                     raise Reject('problem')
                 return 0
             if n in ('getPooledString', 'getMemoryManager', 'get'):
